@@ -55,8 +55,8 @@ static Json genC15(const std::string &prop, uint64_t seed, const std::string &ti
     int n = r.range(1, 4);
     for (int i = 0; i < n; i++) ss.push(anySession(r, tier, false));
     p.set("sessions", ss);
-    // LeakSanitizer's stop-the-world check costs ~350 ms: run it in one run out of four
-    p.set("leakcheck", seed % 4 == 0);
+    // LeakSanitizer's stop-the-world check costs ~350 ms: run it in one run out of six
+    p.set("leakcheck", seed % 6 == 0);
     return p;
 }
 
